@@ -193,6 +193,18 @@ func (h *DNSHandler) handle(ctx context.Context, req *dns.Msg) *dns.Msg {
 	case dns.RcodeNotZone:
 		return dnsutil.SetRcodeWithEDE(req, dns.RcodeServerFailure, do,
 			dns.ExtendedErrorCodeNotAuthoritative, "Upstream server is not authoritative for zone")
+	case dns.RcodeServerFailure:
+		// An authority's own SERVFAIL goes to the client as ours. Nothing in
+		// it says why; an EDNS client is owed the reason on this first reply
+		// just as on the ones the cached failure will answer. The response
+		// itself is kept — what is known about it (a request-local cause) is
+		// attached to this very message.
+		if req.IsEdns0() != nil && dnsutil.GetEDE(resp) == nil {
+			if resp.IsEdns0() == nil {
+				resp.SetEdns0(dnsutil.DefaultMsgSize, do)
+			}
+			dnsutil.SetEDE(resp, dns.ExtendedErrorCodeNoReachableAuthority, "Upstream server failed to answer the query")
+		}
 	}
 
 	return resp
